@@ -159,6 +159,17 @@ class Factory(object):
     def rec(self, kind, zid, **attrs):
         return SRec(zid, kind, attrs)
 
+    def symdict(self, pairs):
+        """dict with the given (symbolic key, value) pairs, keys assumed pairwise distinct (bounded clauses)"""
+        d = DictV()
+        d.sym_items = [[k, v] for k, v in pairs]
+        from . import builtins_ as B
+        for i in range(len(pairs)):
+            for j in range(i):
+                e = self.I.eq(pairs[i][0], pairs[j][0])
+                self.assume(B.z_not(e) if not isinstance(e, bool) else (not e))
+        return d
+
     def strmap(self, name, pair_keys=False, forall=None):
         """dict with arbitrarily many symbolic entries (string keys, or (ns, local) pairs); `forall(k, v)`
         gives a z3 condition assumed of every entry."""
